@@ -98,8 +98,18 @@ GRAFTS_METH = [
 ]
 
 
-def positions(q, path=()):
-    """paths to numeric scalar nodes and to scalar method-call nodes"""
+def _uses(q, x) -> bool:
+    if isinstance(q, dict):
+        return (q.get("k") == "var" and q.get("n") == x) or any(_uses(v, x) for v in q.values())
+    if isinstance(q, list):
+        return any(_uses(v, x) for v in q)
+    return False
+
+
+def positions(q, path=(), dead_elem=False):
+    """paths to numeric scalar nodes and to scalar method-call nodes at LIVE positions: the element expression of
+    a sequence whose consumer ignores its variable (`.Select(lambda x: 2.5)`) is never translated, so a construct
+    grafted there is not `used` by the query"""
     out = []
     if isinstance(q, dict):
         k = q.get("k")
@@ -107,8 +117,21 @@ def positions(q, path=()):
             out.append(("meth", path))
         if k in ("Count", "Sum") or (k == "bin") or (k == "meth" and q["n"] in ("i", "j", "d", "g", "f")):
             out.append(("num", path))
+        ignores = k in ("Select", "Where", "SelectMany", "Aggregate") and "x" in q and not _uses(q.get("f"), q["x"])
         for key, v in q.items():
-            if key in ("s", "f", "a", "b", "c", "o", "seed"):
+            if key == "s" and k in ("Select", "Where", "SelectMany", "Aggregate", "Count", "Sum", "First", "Min", "Max"):
+                # the elements of the source are dead if this operator ignores them, or if it only passes them on
+                # (Where keeps elements: dead iff they were dead for our own consumer) to a consumer that does
+                if k == "Where":
+                    pass_dead = dead_elem and ignores
+                elif k == "Select":
+                    pass_dead = dead_elem or ignores
+                else:
+                    pass_dead = ignores
+                out += positions(v, path + (key,), pass_dead)
+            elif key == "f" and k == "Select" and dead_elem:
+                continue  # this Select's element expression is never looked at
+            elif key in ("s", "f", "a", "b", "c", "o", "seed"):
                 out += positions(v, path + (key,))
             elif key == "es":
                 for i, e in enumerate(v):
